@@ -52,7 +52,7 @@ func kStream(args []string) (string, string) {
 			viol = "VIOL " + sig + " " + sanitize(detail)
 		}
 	}
-	rd, err := gowarc.NewWarcFileReaderFromStream(bytes.NewReader(data), 0, o.options()...)
+	rd, err := gowarc.NewWarcFileReaderFromStream(srcFor(data), 0, o.options()...)
 	if err != nil {
 		return impl, "ok"
 	}
@@ -198,6 +198,12 @@ func genStream(r *rng, n int, tier string, emit func(string, ...string)) {
 				shape = append(shape, kind)
 			case c < 8:
 				seg = safeJunk(r, r.rangeInt(1, 40))
+				if r.chance(1, 3) {
+					seg = safeJunk(r, pick(r, []int{63, 64, 65, 100, 129, 300, 700})) // longer than one read of a chunked source
+				}
+				if tier == "thorough" && r.chance(1, 40) {
+					seg = safeJunk(r, 1<<20+r.rangeInt(1, 5000)) // longer than the file reader's 1 MiB buffer
+				}
 				shape = append(shape, "junk")
 			case c < 9:
 				// junk that starts like a gzip member
